@@ -15,7 +15,7 @@ class ASPOperation(ASPElement):
         Operators.SUM: '+',
         Operators.DIFFERENCE: '-',
         Operators.MULTIPLICATION: '*',
-        Operators.DIVISION: '\\',
+        Operators.DIVISION: '/',
         Operators.EQUALITY: '=',
         Operators.INEQUALITY: '!=',
         Operators.GREATER_THAN: '>',
